@@ -10,6 +10,7 @@
 //     2a. order insensitivity of the state-update sequence (record.go): all permutations of the recorded TryUpdate/TryDelete
 //     sequences between two Hash()/Commit() calls of every trie, for every accepted block of the space above;
 //     2b. all iteration and insertion orders of Account.Tokens through the ser map writer (sermap.go);
+//     2c. all orders of all update/delete sequences over a 6-key pool on raw wrappedTries (rawtrie.go);
 //  3. schedules of the parallel signature pre-check with 2, 3, 4 workers, <= 2 preemptions (sched.go).
 //
 // Cases of 1/2a/4 run in worker subprocesses (vk.RunIsolated): all chains of a process are driven from one goroutine.
@@ -67,6 +68,7 @@ func main() {
 	}
 	if *part == "all" || *part == "ser" {
 		runSerMap(r)
+		runRawTrie(r)
 	}
 	if *part == "all" || *part == "chain" {
 		runChain(r)
@@ -74,8 +76,8 @@ func main() {
 	wg.Wait()
 	os.RemoveAll(scratchRoot())
 
-	states := r.Get("chain_distinct_results") + r.Get("sched_scenarios") + r.Get("sermap_token_sets")
-	trans := r.Get("chain_block_executions") + r.Get("order_permutation_replays") + r.Get("sched_schedules") + r.Get("sermap_encodings")
+	states := r.Get("chain_distinct_results") + r.Get("sched_scenarios") + r.Get("sermap_token_sets") + r.Get("rawtrie_sequences")
+	trans := r.Get("chain_block_executions") + r.Get("order_permutation_replays") + r.Get("sched_schedules") + r.Get("sermap_encodings") + r.Get("rawtrie_permutation_replays")
 	r.Set("states", states)
 	r.Set("transitions", trans)
 	r.Set("traces_validated_against_impl", trans)
@@ -293,7 +295,7 @@ func replayCase(r *vk.Run) {
 		fmt.Println("schedule counterexamples are re-explored by `/verif/check C05 --part sched` (scenario, worker count and schedule are in the replay file)")
 		return
 	case !isChain:
-		fmt.Println("this counterexample belongs to the map-writer part: `/verif/check C05 --part ser`")
+		fmt.Println("this counterexample belongs to the map-writer / raw wrappedTrie part: `/verif/check C05 --part ser`")
 		return
 	}
 	bc := blockCase{}
